@@ -243,13 +243,17 @@ func isRepoClass(class string) bool {
 	if strings.HasPrefix(c, "$") {
 		return true // ghost globals belong to the specification of the repository
 	}
-	for _, p := range []string{"proxy.", "proxycore.", "parser.", "codecs.", "astra."} {
+	for _, p := range []string{"proxy.", "proxycore.", "parser.", "codecs.", "astra.", "chanstate."} {
 		if strings.HasPrefix(c, p) {
 			return true
 		}
 	}
 	return false
 }
+
+// chanClosedClass: has close(ch) been executed on channel ch. Counted among the repository's classes:
+// library code is assumed not to close the repository's channels.
+const chanClosedClass = "chanstate.closed"
 
 func (ex *Exec) preserved(class string) bool { return preservedClass(class) }
 
@@ -646,7 +650,15 @@ func (ex *Exec) builtin(st *State, fr *Frame, b *ssa.Builtin, c *ssa.CallCommon,
 		ex.mapDelete(st, mt, ref, key)
 		return TupleV{}
 	case "close":
-		ex.note("close(chan) in " + specName(fr.Fn))
+		// close(ch) panics on a nil and on an already closed channel. Closedness is heap state of its own
+		// (class chanstate.closed, indexed by the channel), written only here.
+		ch := args[0].(Scalar).T
+		ex.emit(st, "nil", ex.srcLabel(fr.Fn, pos, "close"), Neq(ch, Zero), pos, []string{"C17"})
+		st.assume(Neq(ch, Zero))
+		h := st.heapGet(chanClosedClass, SArr(SInt, SBool))
+		ex.emit(st, "safety", ex.srcLabel(fr.Fn, pos, "close-closed"), Not(Select(h, ch)), pos, []string{"C17"})
+		ex.checkFrameChan(st, ch, pos)
+		st.heapSet(chanClosedClass, Store(h, ch, True))
 		return TupleV{}
 	case "print", "println":
 		return TupleV{}
